@@ -305,6 +305,9 @@ pub fn execute(sc: &NScenario, full_sweep_every_feed: bool) -> NReport {
         if h % 8 == 0 {
             crate::diag_n::conflict_checks(h, &mut fs, &mut |k| hits.push(k), &mut q);
         }
+        if h % 8 == 1 {
+            crate::diag_n::header_checks(h, &mut fs, &mut |k| hits.push(k), &mut q);
+        }
         rep.queries += q;
         for k in hits {
             *rep.probes.entry(k).or_insert(0) += 1;
@@ -870,7 +873,7 @@ pub fn check_main(tier: &str) -> i32 {
         seed,
         evaluations: count,
         distinct_nontrivial: t.digests.len() as u64,
-        rule: format!("history i of stream VERIF_SEED: text of <= {max_bytes} bytes over {{a b space LF CR CRLF 2/3/4-byte chars}} cut at PRNG-chosen character boundaries (empty chunks, CR|LF cuts, cut after newline); after every feed all character-boundary offsets are queried, all spans after the last feed (and after every feed for one history in four); on the final text: the real lexer's own cache, pretty-printed lexing and parse errors, single-span underlines, six multi-span (2-4 spans) warnings, and for one text in eight the conflict report of one of six ambiguous grammars laid out over several lines from the text's hash. Non-trivial = at least two chunks; distinct = distinct chunk sequence."),
+        rule: format!("history i of stream VERIF_SEED: text of <= {max_bytes} bytes over {{a b space LF CR CRLF 2/3/4-byte chars}} cut at PRNG-chosen character boundaries (empty chunks, CR|LF cuts, cut after newline); after every feed all character-boundary offsets are queried, all spans after the last feed (and after every feed for one history in four); on the final text: the real lexer's own cache, pretty-printed lexing and parse errors, single-span underlines, six multi-span (2-4 spans) warnings, and for one text in eight the conflict report of one of six ambiguous grammars laid out over several lines from the text's hash, and for another eighth the error for an array-valued `recoverer` entry of a %grmtools section laid out over several lines (parse, merge, RecoveryKind::try_from, format_error: reported at the opening bracket). Non-trivial = at least two chunks; distinct = distinct chunk sequence."),
         samples: t.samples.clone(),
         extra,
         assumptions: vec!["offsets and spans on character boundaries only (as the property states)".into(), "newline = LF; a lone CR is an ordinary character".into()],
